@@ -270,7 +270,7 @@ Lemma mon_step_ok D bound s ms o : IDLE_MS + D - 1 <= bound -> wf_opb o = true -
   code_ok (fst r) /\ Inv (step s o) (snd r) /\
   (fin_state s -> fin_state (step s o) -> fst r = 0%N).
 Proof.
-  intros Hb Hwf Hinv. destruct o as [now ts rc|i b now|i|]; cbn [mon_step obs_step step] in *.
+  intros Hb Hwf Hinv. destruct o as [now ts rc|i b now|i|i t|]; cbn [mon_step obs_step step] in *.
   - destruct (wf_tick now ts Hwf) as [Hn Hts].
     exact (mon_tick_ok D bound now Hb Hn s ms ts rc Hts Hinv).
   - apply andb_prop in Hwf. destruct Hwf as [_ Hbytes]. apply bytes_okb_ok in Hbytes.
@@ -289,6 +289,8 @@ Proof.
     + split; [apply lobs_code_ok|]. split; [exact Hi|].
       intros _ F2. apply lobs_code_fin. exact (fin_nth _ i _ F2 (nth_upd _ s i l En)).
     + split; [left; reflexivity|]. split; [exact Hi|reflexivity].
+  - cbn [fst snd]. split; [left; reflexivity|]. split; [|reflexivity].
+    apply Inv_upd; [|exact Hinv]. intros l. left. reflexivity.
   - cbn [fst snd]. split; [apply end_code_ok|]. split; [exact Hinv|].
     intros F _. apply end_code_fin. exact F.
 Qed.
